@@ -169,6 +169,42 @@ def large_case(ctx, idx, rng):
     check_arnoldi(ctx, G / np.sqrt(n), v, m)
 
 
+def held_results_case(ctx, idx, rng):
+    """History: several iterations of the same shape are run first, their results are verified only afterwards (a result must not be
+    invalidated by a later call: no shared output buffers), Lanczos and Arnoldi interleaved."""
+    n = int(rng.integers(2, 12))
+    m = int(rng.integers(1, n + 1))
+    k = int(rng.integers(2, 5))
+    runs = []
+    for j in range(k):
+        cplx = bool(rng.random() < 0.5)
+        A, v = kr.make_case(rng, n, cplx, str(rng.choice(['separated', 'gaussian'])), 'generic')
+        if rng.random() < 0.5:
+            out = ptn.lanczos_iteration(lambda x, A=A: A @ x, v, m)
+            runs.append(('lanczos', A, v.copy(), tuple(np.asarray(o) for o in out)))
+        else:
+            G = A + 0.3 * (rng.normal(size=(n, n)))
+            out = ptn.arnoldi_iteration(lambda x, G=G: G @ x, v, m)
+            runs.append(('arnoldi', G, v.copy(), tuple(np.asarray(o) for o in out)))
+    ctx.case(('held-results', f'n{min(n, 6)}', f'k{k}') + tuple(r[0] for r in runs), sample={'n': n, 'm': m, 'sequence': [r[0] for r in runs]})
+    for j, (kind, A, v, out) in enumerate(runs):
+        nA = max(np.linalg.norm(A, 2), 1e-300)
+        detail = {'position-in-batch': j, 'batch': [r[0] for r in runs], 'n': n, 'm': m}
+        if kind == 'lanczos':
+            al, be, V = out
+            kk = len(al)
+            T = np.diag(al) + np.diag(be, 1) + np.diag(be, -1)
+            ctx.close('held.lanczos-first-vector', np.linalg.norm(V[:, 0] - v / np.linalg.norm(v)), 1e-12, 'a Lanczos result was altered by a later call', detail)
+            if kk > 1:
+                ctx.close('held.lanczos-recurrence', np.abs(A @ V[:, :kk - 1] - V @ T[:, :kk - 1]).max() / nA, 1e-10, 'a Lanczos result no longer satisfies A V = V T after later calls', detail)
+        else:
+            Hh, V = out
+            kk = Hh.shape[0]
+            ctx.close('held.arnoldi-first-vector', np.linalg.norm(V[:, 0] - v / np.linalg.norm(v)), 1e-12, 'an Arnoldi result was altered by a later call', detail)
+            if kk > 1:
+                ctx.close('held.arnoldi-recurrence', np.abs(A @ V[:, :kk - 1] - V @ Hh[:, :kk - 1]).max() / nA, 1e-10, 'an Arnoldi result no longer satisfies A V = V H after later calls', detail)
+
+
 def f6_case(ctx, idx, rng):
     """Regression workload of the fixed orthogonality-loss defect: n = m in {32, 48, 64} Gaussian Hermitian matrices."""
     n = (32, 64, 48)[idx % 3]
@@ -191,13 +227,14 @@ SPEC = {
              'orthonormality and V^H A V = T on the leading min(k, Krylov dimension) vectors (the conditioning indicator min beta_j|s_ji|/||T|| '
              'is recorded per case to show that converged-Ritz-pair cases are covered). distinct = '
              '(routine, size class, m vs n, spectrum, start, dtype).'),
-    'deciding': ['lanczos.three-term-recurrence', 'lanczos.sizes', 'lanczos.beta-positive', 'lanczos.alpha-real', 'lanczos.orthonormal',
+    'deciding': ['held.lanczos-recurrence', 'held.arnoldi-recurrence', 'lanczos.three-term-recurrence', 'lanczos.sizes', 'lanczos.beta-positive', 'lanczos.alpha-real', 'lanczos.orthonormal',
                  'lanczos.projection', 'lanczos.early-return-justified', 'arnoldi.recurrence', 'arnoldi.orthonormal', 'arnoldi.projection',
                  'arnoldi.hessenberg'],
     'workloads': [
         Workload('grid', grid_case, quick=len(GRID) * 8, thorough=len(GRID) * 3000,
                  exhaustive={'space': 'all (n,m), 1<=n<=10, 1<=m<=n+5 (each with rotating spectrum/start/dtype classes)'}),
         Workload('large', large_case, quick=300, thorough=36000),
+        Workload('held-results', held_results_case, quick=300, thorough=20000),
         Workload('f6', f6_case, quick=6, thorough=288),
     ],
     'shards': {'quick': 1, 'thorough': 16},
